@@ -48,11 +48,35 @@ PROPS = {
         outside=['xlsx/ods formula text (XML)', 'formula cell positions (inline in zip/XML-bound readers)', 'string literals (PtgStr: encoding_rs)', 'PtgNum (float formatting)', 'operator/function composition in the quick tier (String::split_off/insert/write! exceed 20 GB; attempted in thorough)', 'rows other than the representatives'],
         assumptions=[],
     ),
+    'C01': dict(
+        level_text='Bounded model checking of the xlsx position kernels on the real code: A1 cell-name decoding for every name of each (letters, digits) shape up to XFD1048576 in both letter cases, the accept/reject boundary on arbitrary bytes, <dimension>/ref decoding, and the sparse-to-dense placement (Range::from_sparse: tight bounding box, every cell at its absolute position). The XML/zip-bound half of the property (cursor, dimension element, shared strings, part names, namespaces, compression) is outside.',
+        hosts={'src/xlsx/mod.rs': ['c01_xlsx.rs'], 'src/lib.rs': ['c05_lib.rs']},
+        select=[r'^c01_', r'^c05_[qt]_from_sparse'],
+        functions=['xlsx::get_row_and_optional_column', 'xlsx::get_row', 'xlsx::get_row_column', 'Range::from_sparse'],
+        bounds={'cell names': 'letters 0..=3 x digits 1..=7 (9 thorough) shapes listed, every byte symbolic within its class, both letter cases',
+                'arbitrary bytes': 'all byte strings of length 2..=5 (6..=8 thorough): accepted iff [A-Za-z]*[0-9]+ with non-zero row, value = reference', 
+                'from_sparse': '0..=3 cells (4 thorough), bounding box <= 3x3, positions anywhere in u32'},
+        outside=['implicit row/column cursor of XlsxCellReader::next_cell', '<dimension> handling, shared-string table, part-name case, relationship targets, namespace prefixes, zip compression (quick_xml/zip-typed code)',
+                 'get_dimension (split/collect over symbolic bytes exceeds 20 GB in every shape tried)', 'read_v type dispatch (BytesStart attribute parsing + atoi_simd + float parsing): not admitted', 'cell names with more than 9 digits (pow overflow: C06)'],
+        assumptions=[],
+    ),
+    'C10': dict(
+        level_text='Bounded model checking of the real format scanner against a token-grammar reference (every sequence of up to 3 tokens - 5 thorough - drawn from a 34-entry table of placeholders, literals, quoted/escaped/bracketed groups containing date letters, section separators, plain and elapsed date tokens), metamorphic relations on arbitrary printable-ASCII strings, the built-in id tables for all 2^16 codes / all 1-3 digit decimal ids, and the value wrapping for every f64/i64, format and date system.',
+        hosts={'src/formats.rs': ['c10_formats.rs']},
+        functions=['formats::detect_custom_number_format', 'formats::builtin_format_by_id', 'formats::builtin_format_by_code', 'formats::format_excel_f64_ref', 'formats::format_excel_f64', 'formats::format_excel_i64'],
+        bounds={'grammar': 'token sequences of length 1..=3 (4,5 thorough) over the 34-token table', 'raw strings': 'printable ASCII, length <= 4 (6 thorough)',
+                'built-ins': 'all u16 codes; decimal ids of 1..=3 digits without leading zero'},
+        outside=['building the style table from styles.xml / styles.bin / XF+FORMAT records (XML, zip, inline in parse_workbook)', 'non-ASCII format strings', 'the * fill escape',
+                 'per-record plumbing: decided under C02 (xls rk_num/parse_number with a symbolic format table) and C03 (xlsb)'],
+        assumptions=['stated restriction of the grammar reference: the first date-like token of the first section decides the class'],
+    ),
 }
 
 # (regex on harness name, overrides). First match wins after defaults.
 RULES = [
     (r'_twin(_\w+)?$', dict(expect='fail', weight=0)),
+    (r'^c10_', dict(arena=64)),
+    (r'^c10_q_grammar', dict(min_covers=2)),
     (r'^c02_t_rk_', dict(timeout=1800, weight=9)),
     (r'^c14_[qt]_push_column', dict(arena=64, mem_gb=14.0, timeout=1200, weight=9)),
     (r'^c14_[qt]_xlsb?_(binop|funcvar|unary)', dict(arena=64, mem_gb=20.0, timeout=900, weight=8)),
